@@ -3,6 +3,7 @@ known-finding matching, collect-then-shrink, evidence (DESIGN section 1)."""
 import argparse
 import hashlib
 import importlib
+import importlib.util
 import json
 import os
 import shutil
@@ -261,6 +262,15 @@ def main(argv=None):
     fuzz_stats = {'shards': 0, 'evaluations': 0, 'fuzzer_inputs': 0, 'instrumented_functions': 0, 'final_cov': []}
     if fz and os.environ.get('VERIF_NO_FUZZ') != '1':
         nfuzz = int(fz.get('shards', {}).get(args.tier, 0))
+        if importlib.util.find_spec('atheris') is None:
+            # normally installed by setup.sh; try once (offline wheelhouse), otherwise run without the coverage-guided shards
+            subprocess.run(['/venv/bin/pip', 'install', '--quiet', '--no-index', '--find-links', '/opt/veriftools/wheels',
+                            '--target', os.path.join(env.VERIF, '.deps'), 'atheris'], stdin=subprocess.DEVNULL,
+                           stdout=subprocess.DEVNULL, stderr=subprocess.DEVNULL)
+            importlib.invalidate_caches()
+            if importlib.util.find_spec('atheris') is None:
+                print('note: atheris is not installed; coverage-guided shards skipped', flush=True)
+                nfuzz = 0
         per_f = int(fz.get('cases', {}).get(args.tier, 0)) // max(1, nfuzz)
         if args.cases is not None:
             per_f = min(per_f, max(50, args.cases // nshards))
